@@ -195,10 +195,13 @@ def check(run, prog, tier):
 
     # ---- C13-b
     cc = run.need(comm.funcs.get("copy_chars"), "copy_chars")
+    # copy_chars(from, to, count, ip): the parameters are identified by position, not by name
+    P_FROM = (cc.params[0].get("n") if len(cc.params or []) > 0 else "from")
+    P_TO = (cc.params[1].get("n") if len(cc.params or []) > 1 else "to")
     gud = run.need(comm.funcs.get("get_user_data"), "get_user_data")
     run.saw(cc)
     run.saw(gud)
-    to_id = [p.get("id") for p in cc.params if p["n"] == "to"]
+    to_id = [p.get("id") for p in cc.params if p["n"] == P_TO]
     run.need(to_id, "parameter 'to' of copy_chars")
 
     def is_to_store(n):
@@ -263,19 +266,32 @@ def check(run, prog, tier):
 
     # ---- C13-c
     nst = 0
+    # the receive buffer may be handed to a file-local helper that does the copying for one port kind
+    recv_buf = "buf"
+    scan = [(gud, recv_buf, None)]
     for b, i, n in gud.calls():
+        g = comm.funcs.get(n.get("fn"))
+        if g is not None and g.static and g is not gud and n.get("fn") != "copy_chars":
+            for ai, a in enumerate(n.get("args", [])):
+                if strip(a).get("k") == "Ref" and strip(a).get("n") == recv_buf and ai < len(g.params or []):
+                    scan.append((g, g.params[ai].get("n"), b.id))
+    sites = []
+    for g, srcname, via in scan:
+        for b, i, n in g.calls():
+            sites.append((g, srcname, via, b, i, n))
+    for g, srcname, via, b, i, n in sites:
         fn = n.get("fn")
         dst = None
-        if fn in ("memcpy", "memmove", "__builtin_memcpy") and strip(n["args"][1]).get("n") == "buf":
+        if fn in ("memcpy", "memmove", "__builtin_memcpy") and strip(n["args"][1]).get("n") == srcname:
             dst = n["args"][0]
-        elif fn == "copy_chars":
+        elif fn == "copy_chars" and any(x.get("k") == "Ref" and x.get("n") == srcname for x in walk(n["args"][0])):
             dst = n["args"][1]
         if dst is None:
             continue
         # resolve a local pointer initialised from ip->text + X
         d0 = strip(dst)
         if d0.get("k") == "Ref" and d0.get("d") == "local":
-            for b2, i2, n2 in gud.nodes():
+            for b2, i2, n2 in g.nodes():
                 if n2.get("k") == "Decl":
                     for v in n2.get("vars", []):
                         if v.get("id") == d0.get("id") and "init" in v:
@@ -285,11 +301,11 @@ def check(run, prog, tier):
             off = field_of(d0["R"])
         if not (field_of(d0, "text") or off):
             continue  # not a store into the connection text buffer
-        sg = cfgq.switch_guard(gud, b.id)
+        sg = cfgq.switch_guard(gud, b.id if via is None else via)
         labels = ",".join(sorted((l.get("src") or l.get("k")) for l in (sg[1] if sg else []) if l))
         inst = "append:%s:%s" % (fn, labels)
         nst += 1
-        run.ob("C13-c", inst, off == "text_end", "%s stores new input at text + %s" % (fn, off), gud.file, n.get("l"), "get_user_data",
+        run.ob("C13-c", inst, off == "text_end", "%s stores new input at text + %s" % (fn, off), g.file, n.get("l"), g.name,
                what="get_user_data (%s) copies new input to text + %s: a partial line kept from the previous read is overwritten, so delivered lines depend on packet boundaries" % (labels, off))
     run.need(nst >= 2, "stores of new input in get_user_data")
 
@@ -311,7 +327,7 @@ def check(run, prog, tier):
     run.rule("C13-e", "copy_chars: a bulk copy of input bytes (memcpy/memmove from the input buffer, bypassing the per-byte switch) is guarded by a test of the complete state word (ip->state == TS_DATA), not of the masked state: flag bits above the mask (a pending CR) carry across reads", 1)
     cc = run.need(prog.func("copy_chars"), "copy_chars")
     run.saw(cc)
-    src_param = [p for p in (cc.params or []) if p.get("n") == "from"]
+    src_param = [p for p in (cc.params or []) if p.get("n") == P_FROM]
     bulk = []
     for b, i, n in cc.calls():
         if n.get("fn") in ("memcpy", "memmove", "strncpy", "__builtin_memcpy", "__memcpy_chk", "__builtin___memcpy_chk") and len(n.get("args", [])) >= 2:
@@ -430,7 +446,7 @@ def check(run, prog, tier):
                 if c is None:
                     continue
                 op, l, r = atom_of(c, True)
-                if op == "==" and r is not None and const_val(r) is not None and "from" in show(l):
+                if op == "==" and r is not None and const_val(r) is not None and any(x.get("k") == "Ref" and x.get("d") == "param" and x.get("n") == P_FROM for x in walk(l)):
                     starts.append((cc.blocks[bid].succ[0], "byte %s" % show(strip(r))))
             run.need(starts, "byte tests in the TS_SB_IAC case")
         for st, what in starts:
@@ -445,16 +461,44 @@ def check(run, prog, tier):
     run.rule("C13-h", "copy_chars, data state: the default branch (a byte that is neither IAC nor CR) stores a byte through the output cursor on every path; a path without a store makes a typed character vanish", 1)
     data_case = cases.get("TS_DATA")
     run.need(data_case is not None, "case TS_DATA")
-    inner = None
-    for bid in sorted(cfgq.reach_set(cc, [data_case], avoid_blocks=[outer])):
-        if (cc.blocks[bid].term or {}).get("k") == "SwitchStmt":
-            inner = bid
+    # the region where the byte is known to be none of the control bytes: the default branch of a switch over the byte, or
+    # what is left when every `byte == K` test of an if-chain has failed (the byte may have been copied into a local first)
+    byte_locals = set()
+    for b, i, n in cc.nodes():
+        if n.get("k") == "Decl":
+            for v in n.get("vars", ()):
+                if isinstance(v.get("init"), dict) and any(x.get("k") == "Ref" and x.get("d") == "param" and x.get("n") == P_FROM for x in walk(v["init"])) and "*" not in (v.get("t") or ""):
+                    byte_locals.add(v.get("id"))
+
+    def is_byte(e):
+        return any((x.get("k") == "Ref" and x.get("d") == "param" and x.get("n") == P_FROM) or (x.get("k") == "Ref" and x.get("id") in byte_locals and x.get("id") is not None) for x in walk(e))
+    cur, tests = data_case, 0
+    for _ in range(12):
+        blk = cc.blocks[cur]
+        t2 = blk.term or {}
+        c2 = cc.branch_cond(cur)
+        if t2.get("k") == "SwitchStmt":
+            cond2 = t2.get("cond") or (blk.el[-1] if blk.el else None)
+            d2 = [sx for sx in blk.succ if sx is not None and (cc.blocks[sx].label or {}).get("k") == "default"]
+            if cond2 is None or not is_byte(cond2) or not d2:
+                break
+            cur, tests = d2[0], tests + 1
+            continue
+        if c2 is not None:
+            op, l, r = atom_of(c2, True)
+            if op in ("==", "!=") and r is not None and const_val(r) is not None and is_byte(l):
+                cur, tests = (blk.succ[1] if op == "==" else blk.succ[0]), tests + 1
+                continue
             break
-    run.need(inner is not None, "switch over the byte in the data state")
-    dflt = [sx for sx in cc.blocks[inner].succ if sx is not None and (cc.blocks[sx].label or {}).get("k") == "default"]
-    run.need(dflt, "default branch of the data-state switch")
+        ls2 = blk.live_succ()
+        if len(ls2) == 1 and ls2[0] != outer:
+            cur = ls2[0]
+            continue
+        break
+    run.need(tests >= 1, "tests of the byte against the control bytes in the data state")
+    dflt = [cur]
     to_stores = {b.id for b, i, n in cc.nodes() if n.get("k") == "Asg" and n.get("op") == "=" and strip(n["L"]).get("k") == "Un" and strip(n["L"]).get("op") == "*"
-                 and any(x.get("k") == "Ref" and x.get("d") == "param" and x.get("n") == "to" for x in walk(n["L"]))}
+                 and any(x.get("k") == "Ref" and x.get("d") == "param" and x.get("n") == P_TO for x in walk(n["L"]))}
     run.need(to_stores, "stores through `to`")
     p = cc.reach_avoiding([dflt[0]], lambda blk, t=outer: blk.id == t, avoid_blocks=to_stores) if dflt[0] not in to_stores else None
     run.ob("C13-h", "data-byte-stored", p is None, "every path of the default branch stores through `to`" if p is None else
